@@ -98,6 +98,25 @@ def rules(ctx):
                      "recursion is reachable with %s operands: unbounded recursion" %
                      ('zero' if not nonempty else 'one'))
 
+    # ---------------------------------------------------------------- R07.5
+    ctx.rule('R07.5', "operands are combined only through the model arithmetic (no hand-written coefficient stores in "
+                      "the builders); the product they rely on empties and rebuilds self from snapshots", floor=9)
+    for name, fn in fns.items():
+        bad = []
+        for n in ast.walk(fn.node):
+            if isinstance(n, (ast.Assign, ast.AugAssign)):
+                for t in (n.targets if isinstance(n, ast.Assign) else [n.target]):
+                    if isinstance(t, ast.Subscript):
+                        bad.append(n)
+            if isinstance(n, ast.Call) and isinstance(n.func, ast.Attribute) and n.func.attr in ('update', 'setdefault', 'pop', '__setitem__'):
+                bad.append(n)
+        ctx.inst('R07.5', fn, 'coefficient stores in %s' % name, not bad,
+                 "operands only combined with + - * **" if not bad else
+                 "`%s` writes coefficients by hand instead of using the model arithmetic (terms that collapse onto one key "
+                 "are overwritten, idempotence x*x = x is bypassed)" % src(bad[0])[:60])
+    from .C05 import imul_rules
+    imul_rules(ctx, 'R07.5')
+
     # ---------------------------------------------------------------- R07.4
     for name, fn in fns.items():
         tests = []
